@@ -47,7 +47,7 @@ def eval_py(e, rng_ops, leaves_out=None):
     that no operand object was modified (x += y must rebind, not mutate, an HTML() that may be
     referenced elsewhere)"""
     if e[0] == 0:
-        o = [lambda s: s, HTML, Other][e[1]](e[2])
+        o = [trees.mk_text, trees.mk_html, Other][e[1]](e[2])   # incl. str / HTML subclass instances
         if leaves_out is not None:
             leaves_out.append((o, e[2]))
         return o
